@@ -144,22 +144,22 @@ func calleeFunc(info *types.Info, call *ast.CallExpr) *types.Func {
 }
 
 var errDiscardTable = map[string]string{
-	"pkg/consensus.(*service).Start->pkg/core/interop.(Ledger).GetBlock":                                       "the code's own reason: \"Can't fail, we have some current block\" (the hash comes from the same ledger a line earlier)",
-	"pkg/consensus.(*service).eventLoop->pkg/core/interop.(Ledger).GetBlock":                                   "same as Start: current block of the same ledger",
-	"pkg/consensus.(*service).getTx->pkg/consensus.(Ledger).GetTransaction":                                    "absence is the answer: dBFT asks whether the transaction is known, a nil transaction is returned for any error",
+	"pkg/consensus.(*service).Start->pkg/core/interop.(Ledger).GetBlock":                                      "the code's own reason: \"Can't fail, we have some current block\" (the hash comes from the same ledger a line earlier)",
+	"pkg/consensus.(*service).eventLoop->pkg/core/interop.(Ledger).GetBlock":                                  "same as Start: current block of the same ledger",
+	"pkg/consensus.(*service).getTx->pkg/consensus.(Ledger).GetTransaction":                                   "absence is the answer: dBFT asks whether the transaction is known, a nil transaction is returned for any error",
 	"pkg/core.(*Blockchain).ApplyPolicyToTxSet->pkg/smartcontract.CreateDefaultMultiSigRedeemScript":          "validators come from the NEO contract, the list is never empty: the script builder cannot fail; only the script length is used",
-	"pkg/core.(*Blockchain).processTokenTransfer->pkg/core.appendTokenTransfer":                                "the code's own reason: \"Nothing useful we can do\" - the transfer log is a node-local index, not part of state",
-	"pkg/core.(*Blockchain).resetStateInternal->pkg/core/mpt.(*TrieStore).Close":                               "TrieStore.Close only drops the trie reference and always returns nil",
+	"pkg/core.(*Blockchain).processTokenTransfer->pkg/core.appendTokenTransfer":                               "the code's own reason: \"Nothing useful we can do\" - the transfer log is a node-local index, not part of state",
+	"pkg/core.(*Blockchain).resetStateInternal->pkg/core/mpt.(*TrieStore).Close":                              "TrieStore.Close only drops the trie reference and always returns nil",
 	"pkg/core.(*HeaderHashes).initMinTrustedHeader->pkg/core.(*HeaderHashes).tryStoreBatch":                   "the code's own reason: \"ignore serialization error\" - the page is stored again by the next batch",
 	"pkg/core/native.(*Designate).hashFromNodes->pkg/smartcontract.CreateDefaultMultiSigRedeemScript":         "the node list was validated non-empty and within limits by designateAsRole before it was stored",
 	"pkg/core/native.(*Designate).hashFromNodes->pkg/smartcontract.CreateMultiSigRedeemScript":                "as above (single-signature case)",
-	"pkg/core/native.(*NEO).getCandidates->pkg/crypto/keys.NewPublicKeyFromBytes":                              "the code's own reason: \"No error can occur\" - keys are storage keys written from valid public keys",
-	"pkg/core/native.(*Oracle).getOriginalTxID->pkg/core/native.(*Oracle).GetRequestInternal":                  "the response transaction passed verifyTxAttributes, which requires the request to exist, in the same block",
+	"pkg/core/native.(*NEO).getCandidates->pkg/crypto/keys.NewPublicKeyFromBytes":                             "the code's own reason: \"No error can occur\" - keys are storage keys written from valid public keys",
+	"pkg/core/native.(*Oracle).getOriginalTxID->pkg/core/native.(*Oracle).GetRequestInternal":                 "the response transaction passed verifyTxAttributes, which requires the request to exist, in the same block",
 	"pkg/core/native.(*Policy).BlockAccountInternalDeferrable->pkg/core/native.(INEO).RevokeVotesDeferrable":  "the code's own reason: \"ignore error, as in the reference\" implementation",
-	"pkg/core/state.(*NEOBalance).Bytes->pkg/core/state.(*NEOBalance).ToStackItem":                             "the code's own reason: \"Never returns an error\"",
+	"pkg/core/state.(*NEOBalance).Bytes->pkg/core/state.(*NEOBalance).ToStackItem":                            "the code's own reason: \"Never returns an error\"",
 	"pkg/core/stateroot.(*Module).UpdateStateValidators->pkg/smartcontract.CreateDefaultMultiSigRedeemScript": "validator keys come from the Designate contract, validated when stored",
 	"pkg/core/statesync.(*Module).AddContractStorageItems->pkg/core/storage.(*MemCachedStore).PutChangeSet":   "MemCachedStore.PutChangeSet only updates the in-memory maps and always returns nil (the error exists for the Store interface)",
 	"pkg/core/storage.(*MemCachedStore).Close->pkg/core/storage.(*MemoryStore).Close":                         "MemoryStore.Close never returns an error (stated in its doc comment)",
 	"pkg/smartcontract/manifest.(*PermissionDesc).FromStackItem->pkg/util.Uint160DecodeBytesBE":               "inside `case util.Uint160Size` of a switch over len(byteArr): the only error of the decoder is a wrong length",
-	"pkg/vm/stackitem.TryMake->pkg/vm/stackitem.TryMake":                                                       "the code's own reason: \"Can't fail for int\" / \"for string\" elements of a typed slice",
+	"pkg/vm/stackitem.TryMake->pkg/vm/stackitem.TryMake":                                                      "the code's own reason: \"Can't fail for int\" / \"for string\" elements of a typed slice",
 }
